@@ -101,11 +101,14 @@ pub fn corruptions(a: &Array, rng: &mut Rng) -> Vec<(String, Array)> {
             for (n, v) in validity_variants(&x.validity, x.len) { let mut y = x.clone(); y.validity = v; out.push((n, A::FixedSizeList(y))); }
             for n in [-1, x.n.saturating_add(1), i32::MAX] { let mut y = x.clone(); y.n = n; out.push((format!("fixed_list_n={}", n), A::FixedSizeList(y))); }
             { let mut y = x.clone(); y.len += 2; out.push(("fixed_list_len+2".into(), A::FixedSizeList(y))); }
+            if x.len > 0 { let mut y = x.clone(); y.len -= 1; out.push(("fixed_list_len-1".into(), A::FixedSizeList(y))); }
+            if x.len > 1 { let mut y = x.clone(); y.len = 0; out.push(("fixed_list_len=0".into(), A::FixedSizeList(y))); }
             for (n, c) in corruptions(&x.elements, rng) { let mut y = x.clone(); y.elements = Box::new(c); out.push((format!("elements/{}", n), A::FixedSizeList(y))); }
         }
         A::Struct(x) => {
             for (n, v) in validity_variants(&x.validity, x.len) { let mut y = x.clone(); y.validity = v; out.push((n, A::Struct(y))); }
             { let mut y = x.clone(); y.len += 1; out.push(("struct_len+1".into(), A::Struct(y))); }
+            if x.len > 0 { let mut y = x.clone(); y.len -= 1; out.push(("struct_len-1".into(), A::Struct(y))); }
             for (k, (_, c)) in x.fields.iter().enumerate() { for (n, cc) in corruptions(c, rng) { let mut y = x.clone(); y.fields[k].1 = cc; out.push((format!("field{}/{}", k, n), A::Struct(y))); } }
         }
         A::Map(x) => {
@@ -164,7 +167,7 @@ fn corrupted_case(ctx: &mut Ctx, field: &Field, arr: &Array, what: &str) {
 pub fn run(ctx: &mut Ctx) {
     ctx.runner = "RunC17".into();
     ctx.shard_size = 150;
-    ctx.rule = "valid one-column arrays of every supported (nested) data type produced by the writer, then every single-point corruption of one length, offset (negative, beyond the data, huge, decreasing, dropped), dictionary key, union type id / offset, validity bitmap (truncated, emptied, too short), data buffer (shortened, invalid UTF-8), view descriptor (length, buffer index, offset) or fixed-size parameter (0, negative, not dividing) at every nesting level (quick: a seeded sample of at most 12 per array), plus seeded pairs of corruptions; each corrupted view is read row by row (and one row past its length) through deserialize_any; the outcome class and value of every read is compared with the reader model (read_top) inside Coq; any panic of the implementation is a violation. Non-trivial: all cases; distinct by (view, reads)".into();
+    ctx.rule = "valid one-column arrays of every supported (nested) data type produced by the writer, then every single-point corruption of one length, offset (negative, beyond the data, huge, decreasing, dropped), dictionary key, union type id / offset, validity bitmap (truncated, emptied, too short), data buffer (shortened, invalid UTF-8), view descriptor (length, buffer index, offset) or fixed-size parameter (0, negative, not dividing) at every nesting level (quick: a seeded sample of at most 12 per array), plus seeded pairs of corruptions; each corrupted view is read row by row (and one row past its length) through deserialize_any; the outcome class and value of every read is compared with the reader model (read_top) inside Coq; any panic of the implementation is a violation. Non-trivial: all cases; distinct by (view, reads) A directed sweep applies every single-point corruption (no sampling; lengths shortened as well as lengthened) to 12 kinds of nullable child below 6 kinds of parent, with 3 rows (bitmap padding) and 9 rows.".into();
     let n = if ctx.thorough { 1500 } else { 170 };
     let per = if ctx.thorough { 60 } else { 12 };
     for _g in 0..n {
@@ -182,5 +185,37 @@ pub fn run(ctx: &mut Ctx) {
         for (what, arr) in &all { corrupted_case(ctx, &field, arr, what); }
         // a pair of corruptions
         if !all.is_empty() { let (w1, a1) = &all[rng.below(all.len())]; let mut second = corruptions(a1, &mut rng); if !second.is_empty() { let k = rng.below(second.len()); let (w2, a2) = second.swap_remove(k); corrupted_case(ctx, &field, &a2, &format!("{} + {}", w1, w2)); } }
+    }
+    // directed: every kind of child below every kind of parent, all single-point corruptions (no sampling),
+    // rows with nulls at the child so that validity bitmaps exist, 3 rows (bitmap padding) and 9 rows (two bytes)
+    {
+        use DataType as T;
+        let mk = |n: &str, dt: DataType, nl: bool| Field { name: n.into(), data_type: dt, nullable: nl, metadata: Default::default() };
+        let children: Vec<DataType> = vec![
+            T::FixedSizeList(Box::new(mk("element", T::Int32, false)), 2), T::Struct(vec![mk("a", T::Int32, true), mk("b", T::Utf8, false)]), T::Boolean, T::Null, T::Int16, T::Utf8, T::LargeBinary,
+            T::List(Box::new(mk("element", T::Int8, true))), T::Utf8View, T::FixedSizeBinary(2), T::Dictionary(Box::new(T::Int8), Box::new(T::Utf8)),
+            T::Map(Box::new(mk("entries", T::Struct(vec![mk("key", T::Utf8, false), mk("value", T::Int32, true)]), false)), false)];
+        let mut rng = ctx.rng.fork();
+        for child in &children {
+            for parent in 0..6usize {
+                let c = |n: &str| mk(n, child.clone(), true);
+                let field = match parent {
+                    0 => mk("c", T::Struct(vec![mk("x", T::Int32, false), c("y")]), true),
+                    1 => mk("c", T::List(Box::new(c("element"))), true),
+                    2 => mk("c", T::LargeList(Box::new(c("element"))), false),
+                    3 => mk("c", T::FixedSizeList(Box::new(c("element")), 2), true),
+                    4 => mk("c", T::Map(Box::new(mk("entries", T::Struct(vec![mk("key", T::Utf8, false), c("value")]), false)), false), true),
+                    _ => mk("c", T::Union(vec![(0, mk("V0", T::Null, true)), (1, c("V1"))], marrow::datatypes::UnionMode::Dense), false),
+                };
+                for nrows in [3usize, 9] {
+                    if nrows == 9 && !ctx.thorough && parent % 2 == 1 { continue; }
+                    let mut none = Inject { countdown: -1, what: None };
+                    let rows: Vec<Val> = (0..nrows).map(|_| Val::Struct(vec![("c".to_string(), arrgen::gen_val(&mut rng, &field, &mut none))], 0)).collect();
+                    let Out::Ok(arrays) = guarded(|| serde_arrow::to_marrow(std::slice::from_ref(&field), &rows).map_err(|e| e.to_string())) else { ctx.count("skipped:directed_rows_rejected"); continue };
+                    ctx.count("directed:child_x_parent");
+                    for (what, arr) in corruptions(&arrays[0], &mut rng) { corrupted_case(ctx, &field, &arr, &what); }
+                }
+            }
+        }
     }
 }
